@@ -519,7 +519,7 @@ Lemma dec_tight_eq rx ry rw rh :
    if cc =? cTightFill then
      (if is888 (c_fmt s) then b <- rd 3 ;; fill_rect rx ry rw rh (rgb24_px32 (c_fmt s) (nthz b 0) (nthz b 1) (nthz b 2))
       else p <- rd_px (bypp_of s) ;; fill_rect rx ry rw rh p)
-   else if cc =? cTightJpeg then (if bypp_of s =? 1 then failM else fun _ _ => Desync)
+   else if cc =? cTightJpeg then (if bypp_of s =? 1 then failM else desyncM 5)
    else if cTightMaxSubencoding <? cc then failM
    else
      fl <- tight_flt s cc rw ;;
